@@ -2,6 +2,7 @@ package queryer
 
 import (
 	"context"
+	"errors"
 	"net/http"
 
 	"github.com/buildbuildio/pebbles/common"
@@ -138,6 +139,11 @@ func (q *MultiOpQueryer) queryBatch(inputs []*requests.Request) ([]map[string]in
 			return nil, resp.Errors
 		}
 
+		// a reply element without errors has to carry data (a null data entry comes with errors)
+		if resp.Data == nil {
+			return nil, errors.New("the service answered with neither data nor errors")
+		}
+
 		results[i] = resp.Data
 	}
 
@@ -155,6 +161,10 @@ func (q *MultiOpQueryer) queryBatch(inputs []*requests.Request) ([]map[string]in
 	for i, resp := range resps {
 		if len(resp.Errors) != 0 {
 			return nil, resp.Errors
+		}
+		// a reply element without errors has to carry data (a null data entry comes with errors)
+		if resp.Data == nil {
+			return nil, errors.New("the service answered with neither data nor errors")
 		}
 		results[toFetchIndexes[i]] = resp.Data
 	}
